@@ -50,10 +50,15 @@ PatchChecks(k, e, bps) ==
        (IF (p \ Entry) \ bps # {} THEN <<V(k, "residual_patch", e.cmd, bps, (p \ Entry) \ bps)>> ELSE <<>>) \o
        (IF bps \ p # {} THEN <<V(k, "breakpoint_not_patched", e.cmd, bps, bps \ p)>> ELSE <<>>)
 BtChecks(k, e, j) ==
-  IF e.bt = <<-1>> \/ j \notin 1..N THEN <<>>
-  ELSE LET r == RefBacktrace(j) IN
-       IF Len(e.bt) >= Len(r) /\ SubSeq(e.bt, 1, Len(r)) = r THEN <<>>
-       ELSE <<V(k, IF Len(e.bt) < Len(r) THEN "backtrace_truncated" ELSE "backtrace_wrong_frame", e.cmd, r, e.bt)>>
+  IF j \notin 1..N THEN <<>>
+  ELSE (IF e.bt = <<-1>> THEN <<>>
+        ELSE LET r == RefBacktrace(j) IN
+             IF Len(e.bt) >= Len(r) /\ SubSeq(e.bt, 1, Len(r)) = r THEN <<>>
+             ELSE <<V(k, IF Len(e.bt) < Len(r) THEN "backtrace_truncated" ELSE "backtrace_wrong_frame", e.cmd, r, e.bt)>>)
+       \* C05: CFA and return address reported for the selected (innermost) frame match the real stack
+       \o (IF e.cfa_off # -1 /\ e.cfa_off # X[j].co THEN <<V(k, "cfa_wrong", e.cmd, X[j].co, e.cfa_off)>> ELSE <<>>)
+       \o (IF e.fi_ret # -1 /\ RetAddr(j) # -1 /\ e.fi_ret # RetAddr(j)
+              THEN <<V(k, "frame_return_address_wrong", e.cmd, RetAddr(j), e.fi_ret)>> ELSE <<>>)
 
 Consume ==
   /\ l <= Len(Rec)
